@@ -340,43 +340,49 @@ where
     pub fn push<E: Emplacer<T>>(&mut self, emplacer: E) -> Result<&mut T, Error> {
         let offset_size = FlexVec::<T, L>::OFFSET_SIZE;
 
-        let mut data = &mut self.data;
+        // Read-only pass: find where the new slot goes and, if the last item is still open
+        // (marked with `L::MAX`), the extent to seal it with. Nothing is written until all checks passed.
         let mut pos = 0;
-
+        let mut seal = None;
         loop {
-            let offset = *L::from_bytes(data)?;
+            let data = &self.data[pos..];
+            let offset = *L::from_bytes(data).map_err(|e| e.offset(pos))?;
             if offset == L::zero() {
                 break;
             } else if offset == L::max_value() {
-                let (offset_slot, payload) = data.split_at_mut(offset_size);
+                let payload = &data[offset_size..];
                 let payload_size = ceil_mul(T::from_bytes(payload)?.size(), Self::ALIGN);
                 let last_offset = offset_size + payload_size;
-                pos += last_offset;
-                L::from_usize(last_offset)
+                let sealed = L::from_usize(last_offset)
                     .and_then(|o| if o < L::max_value() { Some(o) } else { None })
                     .ok_or(Error {
                         kind: ErrorKind::InsufficientSize,
-                        pos,
-                    })?
-                    .emplace(offset_slot)?;
-                (_, data) = payload.split_at_mut(payload_size);
+                        pos: pos + last_offset,
+                    })?;
+                seal = Some((pos, sealed));
+                pos += last_offset;
                 break;
             }
-            let offset = offset.to_usize().unwrap();
-            pos += offset;
-            (_, data) = data.split_at_mut(offset);
+            pos += offset.to_usize().unwrap();
         }
 
-        if data.len() < offset_size {
+        let (head, free) = self.data.split_at_mut(pos);
+        if free.len() < offset_size {
             return Err(Error {
                 kind: ErrorKind::InsufficientSize,
                 pos,
             });
         }
+        let (offset_slot, payload) = free.split_at_mut(offset_size);
 
-        let (offset_slot, payload) = data.split_at_mut(offset_size);
+        // The only step that can still fail writes into the free tail only.
+        let item = emplacer.emplace(payload)?;
+
         L::max_value().emplace(offset_slot)?;
-        emplacer.emplace(payload)
+        if let Some((seal_pos, sealed)) = seal {
+            sealed.emplace(&mut head[seal_pos..])?;
+        }
+        Ok(item)
     }
     pub fn push_default(&mut self) -> Result<&mut T, Error>
     where
